@@ -23,7 +23,36 @@ STAGES["C16"] = [
          quick=(800, 1), thorough=(4000, 16), crash_is_violation=True),
 ]
 
+STAGES["C19"] = [
+    dict(name="bloom", pkg="z", test="TestVf_C19", replay_test="TestVfReplay_C19",
+         quick=(3000, 1), thorough=(30000, 16), crash_is_violation=True),
+]
+STAGES["C18"] = [
+    dict(name="sketch", pkg="ristretto", test="TestVf_C18_Sketch", replay_test="TestVfReplay_C18",
+         quick=(6000, 1), thorough=(100000, 16), crash_is_violation=True),
+    dict(name="lfu", pkg="ristretto", test="TestVf_C18_LFU", replay_test="TestVfReplay_C18",
+         quick=(4000, 1), thorough=(60000, 16), crash_is_violation=True),
+    dict(name="enum", pkg="ristretto", test="TestVf_C18_Enum", quick=(1, 1), thorough=(1, 1), fixed_cases=True,
+         crash_is_violation=True),
+]
+
 RULES = {
+    "C19": "rapid: NewBloomFilter(entries 1..2^18, locations 1..16) or (entries, rate 1e-12..0.999); 1..300 ops from Add/AddIfNotHas/Has/"
+           "Clear/JSON round trip over hashes that are random, 0, 2^64-1, low-half-zero (all locations coincide), high-half-zero, "
+           "half all-ones, shifted, or repeats of used hashes; up to 200 extra probe hashes. Oracle: reference set (added and not "
+           "cleared => Has), AddIfNotHas == !Has-before and Has after, Has false for every probed hash after Clear, identical Has "
+           "answers on both sides of JSONMarshal/JSONUnmarshal for all used hashes and probes (the run continues on the "
+           "reconstructed filter). Non-trivial: >=64 members at the time of a round trip and >=1 special-pattern hash used; distinct = FNV "
+           "hash of (parameters, ops).",
+    "C18": "sketch stage: cmSketch with NumCounters 2..4096 (powers of two, +-1, small) and generated or random row seeds; ops "
+           "Increment x n / Estimate / Reset / Clear over hashes that repeat, share all counters (same low bits) or the same byte "
+           "(neighbour counter) with used hashes; oracle = reference [4][]uint8 table with the sketch's own seeds, compared cell by "
+           "cell (after every op for <=256 counters, after Reset/Clear/last op otherwise) + table size == next power of two. "
+           "lfu stage: tinyLFU with NumCounters 2..512: min(n,15) <= Estimate <= 16 for n recorded accesses since the last aging "
+           "reset, no access lowers any tracked estimate, reset exactly every NumCounters accesses halving every counter and "
+           "dropping all first-access marks, clear zeroes everything. enum stage: all 256 byte values x both halves for "
+           "get/increment/reset/clear (exhaustive). Non-trivial: a counter saturated and an aging reset happened afterwards; "
+           "distinct = FNV hash of (NumCounters, ops).",
     "C10": "rapid state machine over z.Tree against map[uint64]uint64: per case a page size (4..255 keys per page, biased to 4..9), "
            "1..90 ops from Set/Get/DeleteBelow/IterateKV/rewriting IterateKV/Reset/ascending-descending runs/(rarely) a bulk insert "
            "that outgrows the 1 MiB buffer; keys dense, random 64-bit, neighbours of live keys, boundaries 1,2,2^64-4..2^64-2; values "
